@@ -192,6 +192,8 @@ def gen_e2e(tier, seed):
             for misses in (False, True):
                 yield {'op': 'extract', 'spec': spec, 'policy': policy, 'misses': misses}
         yield {'op': 'extract', 'spec': spec, 'policy': 'drop', 'misses': True, 'columns': ['x', 'y'], 'dim': 'station'}
+        for policy in ('error', 'drop', 'fill'):
+            yield {'op': 'extract', 'spec': spec, 'policy': policy, 'misses': False, 'empty_record': True}
         for fmt, ext in (('geojson', '.geojson'), ('geojson', '.json'), ('wkt', '.wkt'), ('wkb', '.wkb'), ('shapefile', '.shp')):
             yield {'op': 'export', 'spec': spec, 'format': fmt, 'ext': ext, 'explicit': False}
             yield {'op': 'export', 'spec': spec, 'format': fmt, 'ext': '.dat', 'explicit': True}
@@ -288,6 +290,8 @@ def _test_e2e(inp, tmp):
                 f.write(f'name,{cols[0]},{cols[1]}\n')
                 for k, (x, y) in enumerate(pts):
                     f.write(f'p{k},{float(x)!r},{float(y)!r}\n')
+                    if inp.get('empty_record') and k == 1:
+                        f.write(',,\n')       # a record whose cells are all empty: a row of missing values, i.e. a point outside the model
             out = os.path.join(tmp, 'out.nc')
             argv = ['extract-points', src, csv, out, '--missing-points', inp['policy']]
             if 'columns' in inp:
